@@ -214,6 +214,20 @@ CHECKS = {
         design_ref="DESIGN.md section 5, C07",
         note=NOTE_COMMON + "D23 was repaired in /repo. Known findings by trigger: D26, D32, D38, D40, D45.",
     ),
+    "C15": dict(
+        technique="Lean 4 proof: theorems that both sides of each documented equivalence have the same meaning in the reference semantics; Spec tied to the "
+                  "code by running both sides of every generated instance on Polars and SQLite and comparing them with each other and with the Spec's frame",
+        text="Pdt/Props/C15.lean: slice_chain (any two stacked slice_head calls = the single slice with length min(n2, n1-o2) and offset o1+o2), filter_split, "
+             "mutate_split_rows / mutate_split_visible (independent arguments), rename_inverse, select_visible_filter (drop = select of the complement), "
+             "inner_eq_cross_filter, is_in_is_or_chain; with C05.implicit_partition and C05.group_mutate_ungroup_rows for group_by(g) >> mutate(f(x)) >> ungroup() "
+             "= mutate(f(x, partition_by=g)), and C01.limit_compose for the SQL side of the slice chain. Oracle: eleven equivalence kinds (mutate / filter split, "
+             "grouping state vs partition_by with and without the arrange verb, drop vs select, rename and inverse, slice chains of length 2-3, inner join vs "
+             "cross join + filter, x.map vs when/then, is_in vs or-chain, union with swapped operands) instantiated on generated base pipelines and data; the two "
+             "sides are exported on Polars and SQLite and must agree per backend, and every export is compared with the Lean Spec. Partial: x.map and union swap "
+             "are established on the real code and by Spec comparison, not by a dedicated theorem.",
+        design_ref="DESIGN.md section 5, C15",
+        note=NOTE_COMMON + "Known finding D9: on SQL the arrange verb is not used as the order of a window function without arrange= (documented notation).",
+    ),
 }
 
 NOT_YET = "check not built yet in this revision of /verif (model and theorems planned in DESIGN.md section 5)"
